@@ -447,6 +447,7 @@ func runOptions(raw json.RawMessage) (*Result, error) {
 	for k := 0; k < 3; k++ {
 		r.maps = append(r.maps, stk.Auxiliary{fmt.Sprintf("m%d", k+1): k})
 	}
+	r.maps = append(r.maps, stk.Auxiliary{}) // the 4th map is non-nil and EMPTY: still the caller's map
 	kindNum := 5
 	var contentT []string
 	if r.isStack {
@@ -694,7 +695,7 @@ func randCall(r *Rng, cond bool) OCall {
 			}
 			return c
 		case x < 88:
-			return OCall{Op: "setaux", I: []int{-2, -1, 1, 2, 3, 1}[r.Intn(6)]}
+			return OCall{Op: "setaux", I: []int{-2, -1, 1, 2, 3, 4, 4, 1}[r.Intn(8)]}
 		default:
 			n := 1
 			switch y := r.Intn(10); {
